@@ -129,14 +129,35 @@ fn check_forest(d: &DSU, m: &Model, step: usize, prev_roots: Option<&[usize]>, u
             step, v, depth[v], sz, bound
         );
     }
-    if let (Some(p), false) = (prev_roots, unioned) {
-        if p.len() == n {
-            for v in 0..n {
-                vensure!(p[v] == root[v], "representative-changed", "step {}: representative of {} changed from {} to {} without a union", step, v, p[v], root[v]);
+    let _ = (prev_roots, unioned);
+    Ok(root)
+}
+
+/// The representative clause, through the public API only: `par` of every element, taken on a *clone* so that the lookups do not
+/// disturb the structure under test. Every representative is a member of its component, identical for all members, and - compared
+/// with the previous step - unchanged unless a union or reset happened in between. (Which member it is, is the implementation's
+/// business: the forest root, the smallest element, ...)
+fn representatives(d: &DSU, m: &Model, step: usize, prev: Option<&[usize]>, unioned: bool) -> Result<Vec<usize>, Violation> {
+    let n = m.label.len();
+    let mut probe = d.clone();
+    let reps: Vec<usize> = (0..n).map(|v| probe.par(v)).collect();
+    for v in 0..n {
+        vensure!(reps[v] < n && m.label[reps[v]] == m.label[v], "representative-outside-component", "step {}: par({}) = {}, which the model puts in another component", step, v, reps[v]);
+        for w in 0..v {
+            if m.label[w] == m.label[v] {
+                vensure!(reps[w] == reps[v], "two-representatives-in-one-component", "step {}: {} and {} are connected but par gives {} and {}", step, w, v, reps[w], reps[v]);
+                break;
             }
         }
     }
-    Ok(root)
+    if let (Some(p), false) = (prev, unioned) {
+        if p.len() == n {
+            for v in 0..n {
+                vensure!(p[v] == reps[v], "representative-changed", "step {}: par({}) changed from {} to {} without a union", step, v, p[v], reps[v]);
+            }
+        }
+    }
+    Ok(reps)
 }
 
 fn run_case(c: &Case) -> CaseResult {
@@ -146,6 +167,7 @@ fn run_case(c: &Case) -> CaseResult {
     let mut d = DSU::new(n0);
     let mut m = Model::new(n0);
     let mut roots = check_forest(&d, &m, 0, None, false)?;
+    let mut reps = representatives(&d, &m, 0, None, false)?;
     let mut big_union = false;
     // (frozen structure, model snapshot) pairs left behind by CloneSwap
     let mut frozen: Vec<(DSU, Vec<usize>)> = Vec::new();
@@ -174,7 +196,7 @@ fn run_case(c: &Case) -> CaseResult {
             Op::Par { v } => {
                 let v = pick(*v, n);
                 let r = d.par(v);
-                vensure!(r == roots[v], "par", "step {}: par({}) = {}, root of its tree was {}", step, v, r, roots[v]);
+                vensure!(r == reps[v], "par", "step {}: par({}) = {}, the representative of its component was {}", step, v, r, reps[v]);
                 if big_union && roots[v] != v {
                     st.nontrivial = true;
                 }
@@ -238,6 +260,7 @@ fn run_case(c: &Case) -> CaseResult {
             }
         }
         roots = check_forest(&d, &m, step, Some(&roots), unioned)?;
+        reps = representatives(&d, &m, step, Some(&reps), unioned)?;
     }
     // clone independence: every frozen copy still answers from its own snapshot
     for (k, (old, labels)) in frozen.iter_mut().enumerate() {
@@ -402,9 +425,13 @@ fn run_pat(p: &Pat) -> CaseResult {
     if let Some((root, depth)) = forest(&d) {
         let mut order: Vec<usize> = (0..n).collect();
         order.sort_by_key(|&v| std::cmp::Reverse(depth[v]));
+        // (which member represents a component is the implementation's choice: compare lookups with each other, not with the forest root)
+        let mut rep_of_tree: std::collections::HashMap<usize, usize> = Default::default();
         for &v in order.iter().take(8) {
             let r = d.par(v);
-            vensure!(r == root[v], "par", "{:?}: par({}) = {} for a vertex at depth {}, root of its tree is {}", p, v, r, depth[v], root[v]);
+            vensure!(r < n && root[r] == root[v], "representative-outside-component", "{:?}: par({}) = {} for a vertex at depth {}, which is not in its component", p, v, r, depth[v]);
+            let first = *rep_of_tree.entry(root[v]).or_insert(r);
+            vensure!(first == r && d.par(root[v]) == r && d.par(r) == r, "two-representatives-in-one-component", "{:?}: par({}) = {}, but another member of the same component got {}", p, v, r, first);
         }
         check_big(&d, comps, p, "after deepest lookups")?;
     }
